@@ -50,6 +50,7 @@ type Profile struct {
 	PCrashUndurableTerm                                                          float64 // crash a leader/candidate whose current term is not durable yet
 	PLateType                                                                    float64 // per run: one message type is systematically delayed by election timeouts
 	RemoveBias                                                                   float64 // probability that a membership change removes a voter other than the proposer
+	HoldConfApply                                                                float64 // a node that has been handed a committed conf change stalls its application with this probability, and is then made to campaign
 	HoldSnapshot                                                                 float64 // a node that has just accepted a snapshot is stalled (keeps the install pending) with this probability
 	SnapChaos                                                                    float64 // MsgSnap is delayed by election timeouts / duplicated with this probability
 	PNodeAPI                                                                     float64 // E3 nodesim: nodes are driven through the channel-based raft.Node
@@ -92,6 +93,7 @@ const (
 	evSnapReport
 	evRestart
 	evClockResume
+	evCampaign
 )
 
 type event struct {
@@ -138,6 +140,7 @@ type genNode struct {
 	restartAt     int64
 	heldSnap      bool
 	applyStall    int64
+	heldConf      bool
 }
 
 // Gen drives one run: it owns the PRNG and the simulated clock, turns events
@@ -476,6 +479,25 @@ func (g *Gen) after() {
 		} else if n.st.UnstableSnapshot == nil {
 			gn.heldSnap = false
 		}
+		// targeted: the window in which a committed conf change has been handed
+		// to the application and is not applied yet
+		if g.p.HoldConfApply > 0 && g.allow("slow") {
+			if c.confChangeHandedOut(n) {
+				if !gn.heldConf {
+					gn.heldConf = true
+					if chance(g.rng, g.p.HoldConfApply) {
+						d := g.now + int64((1+5*g.rng.Float64())*float64(g.maxET)*tickUnit)
+						gn.slowUntil, gn.applyStall = d, d
+						c.stats.fault("conf_change_apply_held")
+						if chance(g.rng, 0.6) {
+							g.schedule(&event{at: g.now + int64((0.2+2*g.rng.Float64())*tickUnit), kind: evCampaign, n: id})
+						}
+					}
+				}
+			} else {
+				gn.heldConf = false
+			}
+		}
 		// targeted: a leader (or candidate) whose term/vote is not on disk yet
 		if g.p.PCrashUndurableTerm > 0 && n.st.State != raft.StateFollower && n.disk.dur.hs.GetTerm() < n.st.Term && g.allow("crash") && c.viol == nil {
 			pc := g.p.PCrashUndurableTerm
@@ -530,6 +552,31 @@ func (g *Gen) needsPump(n *Node) bool {
 		return true
 	}
 	return g.c.hasReady(n)
+}
+
+// confChangeHandedOut reports whether the node's application holds a
+// committed configuration change that it has not applied yet.
+func (c *Cluster) confChangeHandedOut(n *Node) bool {
+	if !n.up {
+		return false
+	}
+	has := func(ents []*pb.Entry) bool {
+		for _, e := range ents {
+			if e.GetType() != pb.EntryNormal {
+				return true
+			}
+		}
+		return false
+	}
+	if n.rd != nil && !n.applied && has(n.rd.CommittedEntries) {
+		return true
+	}
+	for _, m := range n.applyQ {
+		if has(m.GetEntries()) {
+			return true
+		}
+	}
+	return false
 }
 
 // hasReady is a read-only query (guarded: a panic here is a finding too).
@@ -600,6 +647,11 @@ func (g *Gen) handle(e *event) {
 	case evFault:
 		g.fault()
 		g.schedule(&event{at: g.expDelay(g.faultRate), kind: evFault})
+	case evCampaign:
+		if n := c.nodes[e.n]; n.up && c.confChangeHandedOut(n) {
+			c.stats.probe("campaign_call_with_conf_change_handed_out")
+			g.do(Action{K: ACampaign, N: e.n})
+		}
 	case evSnapReport:
 		g.do(Action{K: ASnapReport, N: e.n, M: e.m, B: e.ok})
 	case evRestart:
